@@ -56,6 +56,8 @@ impl<'b, A: Accessor> AccessorCow<'b, A> {
     // `impl Deref for AccessorCow` followed by the accessor's method (auto-deref)
     pub fn reads(&self) -> (v: Vec<ResourceId>) ensures v@ == self.spec_r() { match self { AccessorCow::Ref(r) => r.reads(), AccessorCow::Owned(o) => o.reads() } }
     pub fn writes(&self) -> (v: Vec<ResourceId>) ensures v@ == self.spec_w() { match self { AccessorCow::Ref(r) => r.writes(), AccessorCow::Owned(o) => o.writes() } }
+    // deref coercion `&AccessorCow -> &Accessor` (the real Deref impl is verified in unit U2)
+    pub fn vx_deref(&self) -> (a: &A) ensures a.spec_r() == self.spec_r(), a.spec_w() == self.spec_w() { match self { AccessorCow::Ref(r) => r, AccessorCow::Owned(o) => o } }
 }
 // A System reports its access through its accessor and a time hint; both assumed *stable* (same answer on every call).
 pub trait System: Sized {
